@@ -277,7 +277,10 @@ def matmul(
         rhs_type = Frame
 
     if rhs_type == np.ndarray and lhs_type == np.ndarray:
-        return np.matmul(lhs, rhs)
+        post = np.matmul(lhs, rhs)
+        if post.__class__ is np.ndarray: # a new array (not a 0D result): do not return it writeable
+            post.flags.writeable = False
+        return post
 
 
     own_index = True
